@@ -53,6 +53,14 @@ chk(
     "DESIGN.md 4 C08",
 )
 
+chk(
+    "C19",
+    "model-based testing of call histories against an insertion-ordered dict (exhaustive + Hypothesis lists + rule-based state machine); metamorphic single-attribute perturbation for structural equality",
+    "Exploration: every history of depth <= 3/4 over 25 mapping operations on keys {a, b, A} from three start entries, random histories of <= 30 operations over a 6-key pool (case variants, hyphen, empty key) and a Hypothesis rule-based state machine are compared step by step with a Python dict of key -> Field (return values, KeyError, field order, fields_dict, items(), ENTRYTYPE/ID); equality: every block and field of parsed documents and of generated block specs must equal its copy, deep copy and a twin rebuilt through the public constructors, and must differ (both directions, == and !=) from every single-attribute perturbation incl. metadata and the Explicit/Implicit class swap.",
+    "Trusted: Python dict as the reference mapping; perturbation builder uses only public constructors/setters. `del entry[absent]` may raise or not.",
+    "DESIGN.md 4 C19",
+)
+
 ALL = ["C%02d" % i for i in range(1, 21)]
 NOT_YET = "check not built yet in this revision of /verif (see DESIGN.md section 4 for its design); not claimed"
 
